@@ -92,8 +92,8 @@ def cost(u) -> float:
 
 def run(run: Run) -> None:
     quick, seed = run.quick, run.seed
-    ns = range(3, 8) if quick else range(3, 9)
-    width = 8 if quick else 16
+    ns = range(3, 8) if quick else range(3, 10)
+    width = 8 if quick else 48
     seeds = list(gens.seed_window(seed, width))
     us = []
     for name in gens.names():
@@ -101,8 +101,10 @@ def run(run: Run) -> None:
             sd = seeds
             if name == "oxs" and n >= 7:
                 sd = seeds[:2]
-            if n == 8 and not quick:
-                sd = sd[:4]
+                if n >= 9:
+                    continue
+            if n >= 8 and not quick:
+                sd = sd[:6] if n == 8 else sd[:2]
             us.append((name, n, sd))
     run.rule = ("every key of GENERATORS except 'convex' (pyfmtools absent) x n x every seed of the window [W*VERIF_SEED, W*VERIF_SEED+W) x two "
                 "identically seeded calls; class membership (superadditive within the documented 1e-9 relative tolerance; additionally monotone "
